@@ -385,7 +385,7 @@ func main() {
 	cnt.mu.Unlock()
 	cov["pool_byte_limit"] = limit
 	cov["pair_stage"] = map[string]interface{}{"classes": ps.classes, "ordered_pairs": ps.pairs, "histories": ps.histories, "operations": ps.ops,
-		"second_tx_rejected": ps.rejectedSecond, "second_tx_admitted": ps.admittedSecond, "registered_slot_type_pairs": len(mempool.VerifConflictTable()),
+		"histories_skipped_kind_without_entry": ps.skippedHistories, "second_tx_rejected": ps.rejectedSecond, "second_tx_admitted": ps.admittedSecond, "registered_slot_type_pairs": len(mempool.VerifConflictTable()),
 		"rule": "for every conflict slot and every ordered pair of transaction kinds registered for it (kinds of different slots never meet), two real typed transactions sharing only that slot's key: histories A / B / A,B / A,B,blk / A,blk,B / A,B,A on a fresh pool; never both pooled, slot entry present, no dangling entries, fee list/size/budget consistent; registered (slot,type) pairs without a class-table entry = engine error"}
 	cov["transitions"] = res.Transitions + int64(ps.ops)
 	cov["traces_validated_against_impl"] = res.Executions + int64(ps.histories)
